@@ -338,7 +338,11 @@ func qeShutdownLive(n int) string {
 			return "no-query-subject"
 		}
 	}
+	// a listener goroutine that has been created but has not run yet does not show its function in the dump
 	during := countListeners() - before
+	for wait := time.Now().Add(500 * time.Millisecond); during < n && time.Now().Before(wait); during = countListeners() - before {
+		time.Sleep(time.Millisecond)
+	}
 	run.Stop()
 	deadline := time.Now().Add(qeDuration + 2*time.Second)
 	left := countListeners() - before
@@ -460,6 +464,63 @@ func qeBurst(workers int) string {
 	return fmt.Sprintf("burst replies=%s seen=%s own-answer=%s", counts, strings.Join(seen, ","), wire.Bool(own))
 }
 
+// qePubFail: the callback answers a query request explicitly, and the connection refuses that
+// publish (a payload over the limit, a connection error). The request has been answered as far as
+// the service is concerned: there is no second, different answer on the same reply subject.
+func qePubFail(variant int) string {
+	run, err := qeScenService("shared", 2, func() {})
+	if err != nil {
+		return "start-failed"
+	}
+	defer run.Stop()
+	done := make(chan struct{}, 4)
+	subject, ok := qeStartEvent(run, func(q res.QueryRequest) {
+		if q == nil {
+			return
+		}
+		defer func() { done <- struct{}{} }()
+		switch variant % 4 {
+		case 0:
+			q.NotFound()
+		case 1:
+			q.Model(map[string]string{"big": "value"})
+		case 2:
+			q.Error(&res.Error{Code: "custom.code", Message: "m"})
+		default:
+			panic(&res.Error{Code: "custom.panic", Message: "m"})
+		}
+	})
+	if !ok {
+		return "no-query-subject"
+	}
+	var once sync.Once
+	run.C.FailPub = func(subj string) bool {
+		failed := false
+		if subj == "_INBOX.pf" {
+			once.Do(func() { failed = true })
+		}
+		return failed
+	}
+	run.C.Deliver(subject, "_INBOX.pf", []byte(`{"query":"a=1"}`))
+	select {
+	case <-done:
+	case <-time.After(2 * time.Second):
+		return "callback-not-called"
+	}
+	time.Sleep(qeDuration + 60*time.Millisecond)
+	_, pubs := run.C.Snapshot()
+	attempts, delivered := 0, 0
+	for _, p := range pubs {
+		if p.Subject == "_INBOX.pf" && !svc.IsPre(p.Data) {
+			attempts++
+			if !p.Failed {
+				delivered++
+			}
+		}
+	}
+	return fmt.Sprintf("pubfail attempts=%d delivered=%d", attempts, delivered)
+}
+
 func qeScenario(a []string) string {
 	w := 2
 	if len(a) > 1 {
@@ -474,6 +535,8 @@ func qeScenario(a []string) string {
 		return qeQueued(w)
 	case "burst":
 		return qeBurst(w)
+	case "pubfail":
+		return qePubFail(w)
 	case "lateenq":
 		return qeLateEnqueue(w)
 	case "shutdownlive":
